@@ -317,6 +317,35 @@ def skeleton(fn, indent_name='indent', env=None, choose=None, unroll=None, on_it
                             for k, o in enumerate(ops):
                                 lit += '\x00%d\x00' % k + parts[k + 1]
                             lex = ops
+                    if lit is None and isinstance(a0, ast.Call) and isinstance(a0.func, ast.Attribute) and a0.func.attr == 'format' and isinstance(a0.func.value, ast.Constant) \
+                            and isinstance(a0.func.value.value, str) and '\n' not in a0.func.value.value:
+                        # 'literal {name} text'.format(name=expr): literal text with spliced expressions, as with %
+                        import string
+                        try:
+                            parts_ = list(string.Formatter().parse(a0.func.value.value))
+                            kwv = dict((k_.arg, k_.value) for k_ in a0.keywords if k_.arg)
+                            lit_, lex_, auto = '', [], 0
+                            ok_ = True
+                            for text_, field_, spec_, conv_ in parts_:
+                                lit_ += text_
+                                if field_ is None:
+                                    continue
+                                if field_ == '':
+                                    src_e = a0.args[auto] if auto < len(a0.args) else None
+                                    auto += 1
+                                elif field_.isdigit():
+                                    src_e = a0.args[int(field_)] if int(field_) < len(a0.args) else None
+                                else:
+                                    src_e = kwv.get(field_)
+                                if src_e is None or spec_ or conv_:
+                                    ok_ = False
+                                    break
+                                lit_ += '\x00%d\x00' % len(lex_)
+                                lex_.append(src_e)
+                            if ok_:
+                                lit, lex = lit_, lex_
+                        except ValueError:
+                            pass
                     if lit is not None and '\n' not in lit:
                         lines.append(Line(ind, lit.strip(), lex, s.lineno, tuple(guards), tuple(loops)))
                     else:
